@@ -90,13 +90,26 @@ func VerifH_C09_kv_history() {
 	cut := symInt64("cutoff")
 	symAssume(cut > 0)
 	symAssume(cut < 1<<62)
+	faulty := symParam("faults", 0) == 1 && symChoice("faulty", 2) == 1
+	if faulty {
+		// one storage fault at a symbolic request of the vacuum: whatever it
+		// reports, it has not taken anything a kept version needs
+		f := symInt("fault")
+		symAssume(f >= 0)
+		symAssume(f < symParam("maxfault", 16))
+		bkt.faultOn, bkt.faultAt = true, bkt.reqs+f
+	}
 	err = DeleteHistoricVersions(vCtx, db, time.Unix(0, cut))
-	symAssert(err == nil, "delete-historic-versions-ok")
+	bkt.faultOn = false
+	if !faulty || bkt.faultsInjected == 0 {
+		symAssert(err == nil, "delete-historic-versions-ok")
+	}
+	complete := err == nil && (!faulty || bkt.faultsInjected == 0)
 	// version side of the cutoff: a version whose successor was created strictly
 	// before the cutoff is gone, one whose successor was created after it is kept
 	for i := 0; i+1 < len(chain); i++ {
 		_, present := bkt.objs["kvp/root/merged/"+chain[i].name]
-		if chain[i+1].created < cut {
+		if chain[i+1].created < cut && complete {
 			symAssert(!present, "version-superseded-before-cutoff-is-gone")
 		}
 		if chain[i+1].created > cut {
@@ -113,9 +126,20 @@ func VerifH_C09_kv_history() {
 			symAssert(present, "current-version-is-kept")
 		}
 	}
-	// every version object that is still there is fully readable
+	// every version object that is still there is fully readable.  (An
+	// interrupted run removes the nodes of the versions it reclaims before
+	// their version objects: then only the versions the cutoff keeps count.)
+	keep := map[string]bool{}
+	for i := range chain {
+		if i+1 == len(chain) || chain[i+1].created > cut {
+			keep[chain[i].name] = true
+		}
+	}
 	for _, pfx := range []string{"kvp/root/current/", "kvp/root/merged/"} {
 		for _, name := range bkt.names(pfx) {
+			if !complete && !keep[name[len(pfx):]] {
+				continue
+			}
 			symAssert(vKVVersionReadable(bkt, name[len(pfx):], 0), "kept-version-fully-readable")
 		}
 	}
@@ -123,6 +147,10 @@ func VerifH_C09_kv_history() {
 	cur, err := db.Cursor(vCtx)
 	symAssert(err == nil, "cursor-ok")
 	symAssert(cur.Min(vCtx) == nil, "current-version-readable")
+	if !complete {
+		symReach("end")
+		return
+	}
 	// repeating it changes nothing
 	names1 := bkt.names("")
 	symAssert(DeleteHistoricVersions(vCtx, db, time.Unix(0, cut)) == nil, "second-run-ok")
